@@ -72,13 +72,20 @@ theorem finalized_iff_released (cfg : Cfg) (hfix : cfg.fixCancel = true) (ops : 
 (`Op.req k true`): such a request fails before `initialize()`, so it causes no callback at all; the instance it
 created stays uninitialised (`stale`) until a later request of that name initialises it or a cancellation
 finalizes it.  Non-vacuity of the theorems above on such a history: a rejected request (error pause), the run is
-resumed, a good request of the same command initialises and executes the instance, Stop finalizes it. -/
+resumed, a good request of the same command initialises and executes the instance, Stop finalizes it.
+(The code as it is, `fixStop := false`; they hold for both settings.) -/
 example :
-    let cfg : Cfg := { cmds := [⟨6, none⟩] }
+    let cfg : Cfg := { cmds := [⟨6, none⟩], fixStop := false }
     let s1 := reach cfg [.user .start, .tick, .req 0 true, .tick]
     let s2 := reach cfg [.user .start, .tick, .req 0 true, .tick, .pause false, .req 0, .tick, .user .stop, .tick]
     s1.events = [] ∧ s1.stale = [(0, 1)] ∧ s1.objs = [] ∧ s1.paused = true ∧
     s2.events = [.init 0, .exec 0 0 0, .final 0] ∧ s2.stale = [] ∧ (liveObjs s2) = [] := by decide +kernel
+
+/-- With `fixes/C10-dispose-instances-on-stop.diff` the rejected request leaves nothing behind. -/
+example :
+    let cfg : Cfg := { cmds := [⟨6, none⟩] }
+    let s1 := reach cfg [.user .start, .tick, .req 0 true, .tick]
+    s1.events = [] ∧ s1.stale = [] ∧ s1.objs = [] ∧ s1.paused = true := by decide +kernel
 
 /-- Every callback belongs to an instance that was created. -/
 theorem callbacks_have_instances (cfg : Cfg) (hfix : cfg.fixCancel = true) (ops : List Op) :
